@@ -384,6 +384,10 @@ func vASGenerate(t *testing.T, h *vAS, r *vrand, nseq, nops int) {
 					size = 65537 + r.n(100)
 					h.l.stat("as.write.toolarge")
 				}
+				if th := int(h.streams[uint16(si)].BufferedAmountLowThreshold()); th > 0 && th <= 65536 && r.chance(12) {
+					size = th // buffered amount lands exactly on the threshold: the boundary of the crossing test
+					h.l.stat("as.write.atthreshold")
+				}
 				ppi := 53
 				if r.chance(8) {
 					ppi = int(PayloadTypeWebRTCDCEP)
